@@ -10,7 +10,8 @@
 
 
 def add_or_remove_notifiers(
-        *, object, graph, handler, target, dispatcher, remove):
+        *, object, graph, handler, target, dispatcher, remove,
+        processed=None):
     """ Add/Remove notifiers on objects following the description on an
     ObserverGraph.
 
@@ -37,12 +38,21 @@ def add_or_remove_notifiers(
         callback on a different thread.
     remove : boolean
         If true, notifiers are being removed.
+    processed : list of (notifier, observable), optional
+        Log of the notifiers added or removed so far, shared by the nested
+        calls made while walking the graph (and by the graphs of one
+        ``observe`` call). The outermost caller, which leaves this as None or
+        calls ``undo_processed`` itself, reverts everything in the log if an
+        error occurs, so that a failing call leaves nothing behind.
 
     Raises
     ------
     NotiferNotFound
         Raised when notifier cannot be found for removal.
     """
+    is_outermost = processed is None
+    if is_outermost:
+        processed = []
     callable_ = _AddOrRemoveNotifier(
         object=object,
         graph=graph,
@@ -50,8 +60,32 @@ def add_or_remove_notifiers(
         target=target,
         dispatcher=dispatcher,
         remove=remove,
+        processed=processed,
     )
-    callable_()
+    try:
+        callable_()
+    except Exception:
+        if is_outermost:
+            undo_processed(processed, remove)
+        raise
+
+
+def undo_processed(processed, remove):
+    """ Revert the additions (or removals) recorded in ``processed``.
+
+    Parameters
+    ----------
+    processed : list of (notifier, observable)
+        Log filled by ``add_or_remove_notifiers``. It is emptied.
+    remove : boolean
+        Whether the notifiers were being removed (so they are added back).
+    """
+    while processed:
+        notifier, observable = processed.pop()
+        if remove:
+            notifier.add_to(observable)
+        else:
+            notifier.remove_from(observable)
 
 
 class _AddOrRemoveNotifier:
@@ -60,7 +94,8 @@ class _AddOrRemoveNotifier:
     See ``add_or_remove_notifiers`` for the input parameters.
     """
 
-    def __init__(self, *, object, graph, handler, target, dispatcher, remove):
+    def __init__(self, *, object, graph, handler, target, dispatcher, remove,
+                 processed=None):
         self.object = object
         self.graph = graph
         self.handler = handler
@@ -68,8 +103,10 @@ class _AddOrRemoveNotifier:
         self.dispatcher = dispatcher
         self.remove = remove
 
-        # list of (notifier, observable)
-        self._processed = []
+        # list of (notifier, observable), shared with nested calls. Whoever
+        # created the list is responsible for undoing on error.
+        self._is_outermost = processed is None
+        self._processed = [] if processed is None else processed
 
     def __call__(self):
         """ Main function for adding/removing notifiers.
@@ -93,16 +130,15 @@ class _AddOrRemoveNotifier:
             for step in steps:
                 step()
         except Exception:
-            # Undo and then reraise
-            while self._processed:
-                notifier, observable = self._processed.pop()
-                if self.remove:
-                    notifier.add_to(observable)
-                else:
-                    notifier.remove_from(observable)
+            # Undo and then reraise. With a shared log the undoing is left
+            # to the outermost caller, which reverts the nested calls that
+            # had already completed as well.
+            if self._is_outermost:
+                undo_processed(self._processed, self.remove)
             raise
         else:
-            self._processed.clear()
+            if self._is_outermost:
+                self._processed.clear()
 
     def _add_or_remove_extra_graphs(self):
         """ Add or remove additional ObserverGraph contributed by the root
@@ -116,6 +152,7 @@ class _AddOrRemoveNotifier:
                 target=self.target,
                 dispatcher=self.dispatcher,
                 remove=self.remove,
+                processed=self._processed,
             )
 
     def _add_or_remove_children_notifiers(self):
@@ -130,6 +167,7 @@ class _AddOrRemoveNotifier:
                     target=self.target,
                     dispatcher=self.dispatcher,
                     remove=self.remove,
+                    processed=self._processed,
                 )
 
     def _add_or_remove_maintainers(self):
